@@ -698,6 +698,21 @@ def run_task(m, task):
         rec.resets += 1
         return orig_reset(self)
 
+    def warm_up(call):
+        """The SAME measurement and sensor-model objects were already used by an earlier filter run (another time step): whatever a run
+        leaves behind in them must not change the next one (seeded changes C10_8, C19_8: a look-up cursor inside Measurement).  The
+        observed run is the second one; the first is executed under the same probes and then forgotten."""
+        try:
+            call()
+        except BaseException:
+            pass
+        rec.lines.clear()
+        rec.n_adv = rec.n_meas = rec.est_updates = rec.resets = 0
+        rec.flags = set()
+        rec.flow = None
+        state.clear()
+        state["last_adv"] = None
+
     exc = ""
     res = None
     kalman.correct, kalman.compute_process_matrices, strapdown.Integrator = correct, cpm, RecInt
@@ -709,6 +724,9 @@ def run_task(m, task):
         if kind == "fb":
             incs = make_increments(m, start, task["imu"], rng,
                                    index=pd.Index(np.asarray(task["imu"]).astype(np.int64), name='time') if intidx else None)
+            if task.get("rerun"):
+                warm_up(lambda: filters.run_feedback_filter(pva, 1.0, 0.1, 0.1, 1.0, incs, gm, am, meas_arg,
+                                                            time_step=task["step"] * 2, with_altitude=task["alt"]))
             flow = Flow(m, kind, task["alt"], gm, am, (1.0, 0.1, 0.1, 1.0))
             flow.start(pva)
             flow.names = [c for c, _ in task["meas"]]
@@ -733,6 +751,9 @@ def run_task(m, task):
             incs = make_increments(m, times[0], times[1:], rng) if task.get("inc") else None
             if incs is None and task["models"] in ("full", "asym"):
                 gm, am = make_models(m, "bias", rng)
+            if task.get("rerun"):
+                warm_up(lambda: filters.run_feedforward_filter(nominal, traj, 1.0, 0.1, 0.1, 1.0, gm, am, meas_arg, incs,
+                                                               time_step=task["step"] * 2, with_altitude=task["alt"]))
             flow = Flow(m, kind, task["alt"], gm, am, (1.0, 0.1, 0.1, 1.0))
             flow.start(nominal.iloc[0])
             flow.names = [c for c, _ in task["meas"]]
